@@ -38,10 +38,16 @@ Theorem C08_vp8 : forall st mtu p,
 Proof. exact vp8_frags_ok. Qed.
 Print Assumptions C08_vp8.
 
-Theorem C08_h264 : forall st mtu p,
-  exists st' fs, h264_payload st mtu p = Ok (st', fs) /\ frags_ok mtu fs.
+(* held_ok: the parameter sets a payloader holds are never empty (it ignores empty units); true of a
+   fresh payloader and preserved by every call, so the statement covers every reachable state *)
+Theorem C08_h264 : forall st mtu p, held_ok st ->
+  exists st' fs, h264_payload st mtu p = Ok (st', fs) /\ frags_ok mtu fs /\ held_ok st'.
 Proof. exact h264_frags_ok. Qed.
 Print Assumptions C08_h264.
+
+Theorem C08_h264_fresh : forall d, held_ok (mkH264Pay d None None).
+Proof. exact held_ok_fresh. Qed.
+Print Assumptions C08_h264_fresh.
 
 Theorem C08_vp9 : forall st init mtu p, bytes (match p with Some l => l | None => [] end) ->
   exists st' fs, vp9_payload st init mtu p = Ok (st', fs) /\ frags_ok mtu fs.
